@@ -426,7 +426,7 @@ impl Prop for C11 {
                 prof("text", 8_000),
                 prof("mutated", 30_000),
                 prof("mirror", 10_000),
-                prof("bomb", 16),
+                prof("bomb", 24),
                 prof("v1", 20_000),
             ],
             Tier::Thorough => vec![
@@ -469,7 +469,7 @@ impl Prop for C11 {
             "huge_random" => {
                 // close to the 1 MiB limit AND incompressible (random mantissas everywhere): the
                 // serialized string is longer than 1 MiB of text although the encoding fits the limit
-                (any::<u64>(), 3000u32..6500)
+                (any::<u64>(), prop_oneof![3 => 5900u32..6300, 1 => 3000u32..6500])
                     .prop_map(|(seed, n)| {
                         let mut x = seed | 1;
                         let mut r = move || {
@@ -542,7 +542,7 @@ impl Prop for C11 {
                     .prop_map(|(base, mutations)| Case::Mirror { base, mutations })
                     .boxed()
             }
-            "bomb" => (0u8..3, select(vec![2u32, 3, 16, 64, 256, 256])).prop_map(|(kind, mib)| Case::Bomb { kind, mib }).boxed(),
+            "bomb" => (0u8..3, prop_oneof![3 => Just(256u32), 2 => select(vec![2u32, 3, 16, 64])]).prop_map(|(kind, mib)| Case::Bomb { kind, mib }).boxed(),
             "bomb_big" => (0u8..3, select(vec![512u32, 1024, 2048, 4096])).prop_map(|(kind, mib)| Case::Bomb { kind, mib }).boxed(),
             "v1" => (
                 v1_machine(),
